@@ -5,6 +5,11 @@ namespace Driver.Cap
 open Capnp.Model.Cap
 
 /-- complete the operation the way a single goroutine does: whoever waits for `done` proceeds to Shutdown -/
+structure DS where
+  s : St
+  inflight : List Bool := []      -- hooks of the calls in flight, oldest first (true = the promise hook)
+  weak : Bool := false            -- a weak reference to t was saved
+
 def drain (s : St) : St :=
   let s := match step false s (.passDone false) with | some s' => s' | none => s
   match step false s (.passDone true) with | some s' => s' | none => s
@@ -12,15 +17,19 @@ def drain (s : St) : St :=
 def app (s : St) (acts : List Act) : St :=
   drain (acts.foldl (fun s a => match step false s a with | some s' => s' | none => s) s)
 
+/-- an operation that waits for `done` returns only if the wait can be passed -/
+def parkedAfter (before after : St) : String :=
+  if after.t.waiting > before.t.waiting ∨ after.p.waiting > before.p.waiting then "parked" else "-"
+
 /-- one API call: the new state and the call's own result -/
-def apiOp (s : St) (op : String) : St × String :=
+def apiOp0 (s : St) (op : String) : St × String :=
   match op with
   | "addT" => if s.onT = 0 then (s, "skip") else (app s [.addRef false], "-")
   | "addP" =>
     if s.onP = 0 then (s, "skip")
     else (app s [.addRef true], if s.pResolved ∧ s.toNil then "nil" else "-")
-  | "relT" => if s.onT = 0 then (s, "skip") else (app s [.release false], "-")
-  | "relP" => if s.onP = 0 then (s, "skip") else (app s [.release true], "-")
+  | "relT" => if s.onT = 0 then (s, "skip") else let s' := app s [.release false]; (s', parkedAfter s s')
+  | "relP" => if s.onP = 0 then (s, "skip") else let s' := app s [.release true]; (s', parkedAfter s s')
   | "callT" => if s.onT = 0 then (s, "skip") else (app s [.startCall false, .finishCall false], "hook")
   | "callP" =>
     if s.onP = 0 then (s, "skip")
@@ -28,18 +37,35 @@ def apiOp (s : St) (op : String) : St × String :=
     else if s.toNil then (app s [.startCall true], "null")
     else (app s [.startCall true, .finishCall false], "hook")
   | "weakT" => if s.onT = 0 then (s, "skip") else (app s [.weakAdd false], "-")
-  | "fulfill" => if s.pResolved ∨ s.onT = 0 then (s, "skip") else (app s [.fulfill false], "-")
-  | "fulfillNil" => if s.pResolved then (s, "skip") else (app s [.fulfill true], "-")
+  | "fulfill" => if s.pResolved ∨ s.onT = 0 then (s, "skip") else let s' := app s [.fulfill false]; (s', parkedAfter s s')
+  | "fulfillNil" => if s.pResolved then (s, "skip") else let s' := app s [.fulfill true]; (s', parkedAfter s s')
   | _ => (s, "bad-op")
+
+def apiOp (d : DS) (op : String) : DS × String :=
+  match op with
+  | "beginT" => if d.s.onT = 0 then (d, "skip") else ({ d with s := app d.s [.startCall false], inflight := d.inflight ++ [false] }, "-")
+  | "beginP" =>
+    if d.s.onP = 0 ∨ d.s.pResolved then (d, "skip")
+    else ({ d with s := app d.s [.startCall true], inflight := d.inflight ++ [true] }, "-")
+  | "end" =>
+    match d.inflight with
+    | [] => (d, "skip")
+    | h :: rest => ({ d with s := app d.s [.finishCall h], inflight := rest }, "-")
+  | "mkweakT" => if d.s.onT = 0 then (d, "skip") else ({ d with weak := true }, "-")
+  | "upT" =>
+    if !d.weak then (d, "skip")
+    else if d.s.t.refs = 0 then (d, "gone") else ({ d with s := app d.s [.weakAdd false] }, "-")
+  | _ => let (s', r) := apiOp0 d.s op; ({ d with s := s' }, r)
 
 def run : List String → String
   | ["script", script] =>
     let ops := script.splitOn ","
-    let (s, out) := ops.foldl (fun (acc : St × List String) op =>
-      let (s, res) := apiOp acc.1 op
-      (s, acc.2 ++ [op ++ ":" ++ res ++ ":t" ++ toString s.t.shut ++ "p" ++ toString s.p.shut])) (init, [])
-    let out := if s.useAfter ∨ s.bad then out ++ ["use-after-shutdown"] else out
+    let (d, out) := ops.foldl (fun (acc : DS × List String) op =>
+      let (d, res) := apiOp acc.1 op
+      (d, acc.2 ++ [op ++ ":" ++ res ++ ":t" ++ toString d.s.t.shut ++ "p" ++ toString d.s.p.shut])) ({ s := init }, [])
+    let out := if d.s.useAfter ∨ d.s.bad then out ++ ["use-after-shutdown"] else out
     ";".intercalate out
+  | ["chain"] => "ok"             -- a promise's references transfer to the capability it (transitively) resolves to
   | ["window"] => "ok"            -- Props.C10.shutdown_exactly_once: no Shutdown while a handle remains, on every interleaving
   | ["stress", _, _, _] => "ok"
   | _ => "bad-op"
